@@ -41,7 +41,7 @@ ASSUMPTIONS = [
 ]
 SHARD_TIMEOUT = {"quick": 900, "thorough": 5400}
 
-PROFILE = dict(interpreted_functions=0.15, undefined_init=0.25, invariants=0.3, coinciding_forall=0.08, int_params=0.12)
+PROFILE = dict(interpreted_functions=0.15, undefined_init=0.25, invariants=0.3, coinciding_forall=0.08, int_params=0.12, toggle_pairs=0.3)
 BOUNDS = {"quick": dict(n=1000, depth=3, max_states=40, max_inst=40, walk=45), "thorough": dict(n=3000, depth=5, max_states=250, max_inst=60, walk=120)}
 
 
@@ -138,18 +138,11 @@ def run_examples(b, res, only=None):
 
 def long_walk(pb, sim, ls, rs, gfl, insts, steps, rng, res, viol):
     """A deep lock-step trajectory (beyond UPState's ancestor-flattening depth): one random reference-applicable instance per step."""
+    from vk.gen.plans import toggle_walk, plain_walk
+
     path = []
-    for i in range(steps):
-        cands = []
-        for a, args in insts:
-            r = seqsem.succ(pb, rs, a, args)
-            if r.status == OKAY:
-                cands.append((a, args, r))
-        changing = [c for c in cands if c[2].info.get("changed")]
-        pool = changing if changing and rng.random() < 0.85 else cands
-        if not pool:
-            break
-        a, args, r = rng.choice(pool)
+    walk = (toggle_walk if rng.random() < 0.6 else plain_walk)(pb, insts, steps, rng, rs)
+    for i, (a, args, r) in enumerate(walk):
         step = [a.name, list(args)]
         res.mon()
         res.case()
